@@ -8,3 +8,4 @@ import Juniper.Props.C12
 import Juniper.Props.C05
 import Juniper.Props.C15Heap
 import Juniper.Props.C06
+import Juniper.Props.C11
